@@ -176,7 +176,7 @@ func (b *assignmentBuilder) structFieldAndStructGettersAndFields(lhs bmodel.Node
 			return
 		}
 
-		if util.IsSliceType(lhs.ExprType()) && util.IsSliceType(rhs.ExprType()) {
+		if util.IsSliceType(lhs.ExprType().Underlying()) && util.IsSliceType(rhs.ExprType().Underlying()) {
 			a, err = b.sliceToSlice(lhs, rhs)
 			if a != nil || err != nil {
 				logger.Printf("%v: assignment found: sliceCopy(%v, %v)", methodPosStr, lhsExpr, rhs.AssignExpr())
@@ -559,11 +559,13 @@ func (b *assignmentBuilder) resolveTemplatedExpr(
 // element types are convertible, a typecast is inserted between the slices. If
 // neither is possible, this function returns nil.
 func (b *assignmentBuilder) sliceToSlice(lhs, rhs bmodel.Node) (a gmodel.Assignment, err error) {
-	lhsElem := util.SliceElement(lhs.ExprType())
-	rhsElem := util.SliceElement(rhs.ExprType())
+	// Named slice types (type Tags []string) are copied like unnamed ones.
+	lhsElem := util.SliceElement(lhs.ExprType().Underlying())
+	rhsElem := util.SliceElement(rhs.ExprType().Underlying())
 	if lhsElem == nil || rhsElem == nil {
 		return
 	}
+	sliceTyp := b.typeName(lhs.ExprType())
 
 	if types.AssignableTo(rhsElem, lhsElem) {
 		// copy() requires identical element types; e.g. []string to []interface{} needs the loop.
@@ -571,13 +573,13 @@ func (b *assignmentBuilder) sliceToSlice(lhs, rhs bmodel.Node) (a gmodel.Assignm
 			a = gmodel.SliceAssignment{
 				LHS: lhs.AssignExpr(),
 				RHS: rhs.AssignExpr(),
-				Typ: "[]" + b.typeName(lhsElem),
+				Typ: sliceTyp,
 			}
 		} else {
 			a = gmodel.SliceLoopAssignment{
 				LHS: lhs.AssignExpr(),
 				RHS: rhs.AssignExpr(),
-				Typ: "[]" + b.typeName(lhsElem),
+				Typ: sliceTyp,
 			}
 		}
 		return
@@ -592,7 +594,7 @@ func (b *assignmentBuilder) sliceToSlice(lhs, rhs bmodel.Node) (a gmodel.Assignm
 		a = gmodel.SliceTypecastAssignment{
 			LHS:  lhs.AssignExpr(),
 			RHS:  rhs.AssignExpr(),
-			Typ:  "[]" + b.typeName(lhsElem),
+			Typ:  sliceTyp,
 			Cast: cast,
 		}
 		return
